@@ -23,14 +23,15 @@ func init() {
 }
 
 type scriptConn struct {
-	mu      sync.Mutex
-	chunks  [][]byte
-	idx     int
-	fail    bool // after the chunks: a read error (else block until closed)
-	closed  chan struct{}
-	once    sync.Once
-	writes  [][]byte
-	yieldRd bool
+	mu          sync.Mutex
+	chunks      [][]byte
+	idx         int
+	fail        bool // after the chunks: a read error (else block until closed)
+	errWithData bool // the failing Read also delivers the last chunk (n > 0 together with the error)
+	closed      chan struct{}
+	once        sync.Once
+	writes      [][]byte
+	yieldRd     bool
 }
 
 type addr struct{}
@@ -51,7 +52,11 @@ func (c *scriptConn) Read(p []byte) (int, error) {
 		} else {
 			c.idx++
 		}
+		last := c.idx >= len(c.chunks)
 		c.mu.Unlock()
+		if last && c.fail && c.errWithData {
+			return n, errors.New("scripted connection failure")
+		}
 		return n, nil
 	}
 	c.mu.Unlock()
@@ -86,6 +91,19 @@ func (p rawParser) Parse(b []byte) (util.Message, error) {
 		runtime.Gosched()
 	}
 	return util.NewBuffer(append([]byte{}, b...)), nil
+}
+
+// libParser hands the frame to the library's own opaque-payload decoder (what the error,
+// packet-in and packet-out decoders do with the tail of a frame)
+type libParser struct{ slow bool }
+
+func (p libParser) Parse(b []byte) (util.Message, error) {
+	if p.slow {
+		runtime.Gosched()
+	}
+	m := new(util.Buffer)
+	err := m.UnmarshalBinary(b)
+	return m, err
 }
 
 type ofParser struct{}
@@ -138,7 +156,7 @@ func runC10(seed uint64, tier, dir, replay string) error {
 	}
 	for t := 0; t < trials; t++ {
 		nf := 1 + rng.Intn(40)
-		long := t%4 == 3 // more frames than the pool has buffers: every buffer is recycled
+		long := t%4 == 3  // more frames than the pool has buffers: every buffer is recycled
 		large := t%8 == 7 // more frames above the pool buffer capacity than the pool has buffers
 		if long {
 			nf = 60 + rng.Intn(140)
@@ -201,8 +219,13 @@ func runC10(seed uint64, tier, dir, replay string) error {
 			failed = 1
 		}
 		conn := &scriptConn{chunks: split(rng, append([]byte{}, stream[:k]...), mode), fail: failed == 1, closed: make(chan struct{}), yieldRd: rng.Bool()}
+		conn.errWithData = failed == 1 && rng.Intn(3) == 0 // io.Reader allows n > 0 together with the error
 		old := runtime.GOMAXPROCS([]int{1, 2, 4, 16}[rng.Intn(4)])
-		s := util.NewMessageStream(conn, rawParser{slow: rng.Bool()})
+		var prs util.Parser = rawParser{slow: rng.Bool()}
+		if rng.Bool() {
+			prs = libParser{slow: rng.Bool()}
+		}
+		s := util.NewMessageStream(conn, prs)
 		// expected number of whole frames inside k bytes
 		whole, acc := 0, 0
 		for _, sz := range sizes {
@@ -214,6 +237,7 @@ func runC10(seed uint64, tier, dir, replay string) error {
 			}
 		}
 		var got []int
+		var kept []util.Message
 		intact := 1
 		nerr := 0
 		slowConsumer := rng.Intn(4) == 0
@@ -222,7 +246,7 @@ func runC10(seed uint64, tier, dir, replay string) error {
 	loop:
 		for {
 			var idle <-chan time.Time
-			if len(got) >= whole && (failed == 0 || nerr > 0) {
+			if (failed == 0 && len(kept) >= whole) || (failed == 1 && nerr > 0 && (len(kept) >= whole || conn.errWithData)) {
 				idle = time.After(quiet)
 			}
 			select {
@@ -230,15 +254,7 @@ func runC10(seed uint64, tier, dir, replay string) error {
 				if slowConsumer {
 					runtime.Gosched()
 				}
-				b, _ := m.MarshalBinary()
-				id := -1
-				if len(b) >= 8 {
-					id = int(binary.BigEndian.Uint32(b[4:]))
-				}
-				if id < 0 || id >= nf || !bytes.Equal(b, frames[id]) {
-					intact = 0
-				}
-				got = append(got, id)
+				kept = append(kept, m) // looked at only when the history is over: it must still be what was delivered
 			case <-s.Error:
 				nerr++
 			case <-idle:
@@ -246,6 +262,17 @@ func runC10(seed uint64, tier, dir, replay string) error {
 			case <-deadline:
 				break loop
 			}
+		}
+		for _, m := range kept {
+			b, _ := m.MarshalBinary()
+			id := -1
+			if len(b) >= 8 {
+				id = int(binary.BigEndian.Uint32(b[4:]))
+			}
+			if id < 0 || id >= nf || !bytes.Equal(b, frames[id]) {
+				intact = 0
+			}
+			got = append(got, id)
 		}
 		// let the stream shut down (after a failure the reader has already asked for it)
 		if failed == 0 {
@@ -299,7 +326,7 @@ func runC10(seed uint64, tier, dir, replay string) error {
 		o.Add(fmt.Sprintf("(Defr %s %s)", listT(cts), listT(bts)),
 			map[string]interface{}{"kind": "deframe", "chunks": len(chunks), "frames": nf, "buffers_seen_by_parsers": len(bufs)}, "deframe", fmt.Sprint(nf, len(chunks)))
 	}
-	o.Meta["rule"] = "real util.MessageStream over a scripted net.Conn: 1..40 well-formed frames of 8..6048 bytes (incl. sizes around and beyond the 2 KiB pool buffers), every fourth history 60-200 small frames (more than the pool has buffers), every eighth 52-63 frames above 2 KiB, the byte stream cut into reads byte-by-byte / 1..7 / 1..3000 / one chunk, a connection failure after a random byte, inside the first header, or exactly after a frame; GOMAXPROCS 1/2/4/16, yields injected in Read, in the parser and in the consumer; every delivered message compared byte for byte with its frame; the buffers handed to the parser goroutines compared with the model's de-framer on the same chunks; distinct by frames x chunk mode x failure x whole frames"
+	o.Meta["rule"] = "real util.MessageStream over a scripted net.Conn: 1..40 well-formed frames of 8..6048 bytes (incl. sizes around and beyond the 2 KiB pool buffers), every fourth history 60-200 small frames (more than the pool has buffers), every eighth 52-63 frames above 2 KiB, the byte stream cut into reads byte-by-byte / 1..7 / 1..3000 / one chunk, a connection failure after a random byte, inside the first header, or exactly after a frame, reported by a Read of its own or together with the last bytes; GOMAXPROCS 1/2/4/16, yields injected in Read, in the parser and in the consumer; every delivered message kept until the history is over and then compared byte for byte with its frame (parsers: a copying one and the library's own opaque-payload decoder); the buffers handed to the parser goroutines compared with the model's de-framer on the same chunks; distinct by frames x chunk mode x failure x whole frames"
 	return o.Close()
 }
 
